@@ -164,7 +164,7 @@ def main(argv):
     for key, ent, kf in known_hits:
         lines.append('KNOWN-FINDING: property=%s %s: %s (%d cases this run)' % (
             prop, key, kf.get('what_fails', ''), ent['n']))
-    replay_dir = os.path.join(env.VERIF, 'replays', prop)
+    replay_dir = os.path.join(os.environ.get('VERIF_REPLAY_DIR') or os.path.join(env.VERIF, 'replays'), prop)
     for key, ent in new_viol:
         os.makedirs(replay_dir, exist_ok=True)
         case = ent['cases'][0]
@@ -210,8 +210,9 @@ def main(argv):
         'wall_s': round(wall, 2),
         'violations': sum(e['n'] for _, e in new_viol),
     }
-    os.makedirs(os.path.join(env.VERIF, 'evidence'), exist_ok=True)
-    evp = os.path.join(env.VERIF, 'evidence', prop + '.json')
+    evdir = os.environ.get('VERIF_EVIDENCE_DIR') or os.path.join(env.VERIF, 'evidence')
+    os.makedirs(evdir, exist_ok=True)
+    evp = os.path.join(evdir, prop + '.json')
     with open(evp + '.tmp', 'w') as f:
         json.dump(ev, f, indent=1, sort_keys=True)
     os.replace(evp + '.tmp', evp)
